@@ -124,15 +124,18 @@ Proof. vm_compute. repeat split. Qed.
 Print Assumptions C13_spsa_segments_example.
 
 (* Which optimiser behaviour the implicit reset covers.  Within one run of qiskit_algorithms' SPSA the evaluation
-   counter strictly increases from callback to callback (every iteration evaluates the objective at least twice), and
-   every run of one optimiser configuration issues its first callback with the same counter.  Hence the first counter
-   of a new run never exceeds the last counter of the previous run, and "counter did not increase" recognises every
-   such run start: no premise about checker states is needed (C13_spsa_segments_runs, C13_spsa_first_count_constant).
+   counter strictly increases from callback to callback.  WITHOUT blocking every run of one optimiser configuration
+   issues its first callback with the same counter; then the first counter of a new run never exceeds the last counter
+   of the previous run and "counter did not increase" recognises every run start: no premise about checker states is
+   needed (C13_spsa_segments_runs, C13_spsa_first_count_constant — conditional theorems).
    Before fix 05ee1f9 the reset required a strictly smaller counter, which misses a new run starting with the same
    counter as the last callback of a single-callback run (C13_spsa_run_boundary_refuted).
-   NOT recognisable: a new run whose first counter is larger than the last counter of the previous run that was not
-   ended by the change criterion (for example optimisers with different settings sharing one checker): it is
-   indistinguishable from a continuation (C13_spsa_unrecognisable_example); that case is outside the property. *)
+   With SPSA(blocking=True) the premise is FALSE: rejected iterations skip the checker call while the counter grows, so a
+   run's first call carries a varying counter.  NOT recognisable — the KNOWN FINDING of C13 (known_findings.txt, key
+   answer-spsa-run-boundary-increasing-count; no repair without an explicit reset signal in the callback interface):
+   a new run whose first counter is larger than the last counter of the previous run that was not ended by the change
+   criterion is indistinguishable from a continuation and is merged with it
+   (C13_spsa_known_finding_increasing_count, C13_spsa_unrecognisable_example are the model-level witnesses). *)
 Theorem C13_spsa_segments_runs : forall thr v maxfev runs,
   Forall run_wf runs ->
   (forall j r r', nth_error runs j = Some r -> nth_error runs (S j) = Some r' ->
@@ -188,6 +191,20 @@ Theorem C13_spsa_unrecognisable_example :
      <> spsa_run repaired (1 # 2) 0 None spsa_init [mk_in 2 5] ++ spsa_run repaired (1 # 2) 0 None spsa_init [mk_in 3 6].
 Proof. exact spsa_unrecognisable_example. Qed.
 Print Assumptions C13_spsa_unrecognisable_example.
+
+(* the known finding on the history kept in corpus/C13/spsa-blocking-increasing-first-count.json: the premise of
+   C13_spsa_segments fails and the answers of the joined sequence differ from the per-run answers *)
+Theorem C13_spsa_known_finding_increasing_count :
+  spsa_run repaired (1 # 2) 0 None spsa_init ([mk_in 4 5] ++ [mk_in 7 6]) = [Ok false; Ok true]
+  /\ spsa_run repaired (1 # 2) 0 None spsa_init [mk_in 4 5] ++ spsa_run repaired (1 # 2) 0 None spsa_init [mk_in 7 6]
+     = [Ok false; Ok false]
+  /\ ~ (match [mk_in 7 6] with
+        | [] => True
+        | i :: _ => done (spsa_state_after repaired (1 # 2) 0 None spsa_init [mk_in 4 5]) = true
+                    \/ (si_n i <= nfe (spsa_state_after repaired (1 # 2) 0 None spsa_init [mk_in 4 5]))%Z
+        end).
+Proof. exact spsa_known_finding_increasing_count. Qed.
+Print Assumptions C13_spsa_known_finding_increasing_count.
 
 Theorem C13_spsa_best_value : forall thr v maxfev h seg lastn closed,
   spsa_seg_after thr v maxfev [] 0 false h = (seg, lastn, closed) ->
